@@ -5,7 +5,7 @@ from fractions import Fraction as F
 from .core import fr, frs, dhex, hexd
 from .runner import Case
 
-GROUP = dict(name='est', sources=['h_est.cpp', 'h_est_cmul.cpp'], repo_sources=['util/true_math.c'], driver='est')
+GROUP = dict(name='est', sources=['h_est.cpp', 'h_est_cmul.cpp'], repo_sources=['util/true_math.c'], driver='est', thread_mode=True)
 
 
 def hexes(xs): return ' '.join(dhex(x) for x in xs)
@@ -88,6 +88,10 @@ def gen_C11(g, tier):
             cs.append(Case('ef.%s %s' % (f, hexes([x, var])), 'cmp', 'function-' + f))
             if f == 'log' and x < 0: continue
             if var > 0: cs.append(Case('o.c11.deriv %s %s' % (f, hexes([x, var])), 'orc', 'derivative-' + f, check=small_hex_check(1e-6)))
+    # the functions at exactly zero (both signs), where a table or a remembered argument would start
+    for f in ('exp', 'sin', 'cos', 'acos', 'atan', 'sinh', 'cosh', 'atanh'):
+        for x in (0.0, -0.0):
+            cs.append(Case('ef.%s %s' % (f, hexes([x, g.choice([0.25, 1.0, g.r.uniform(0.1, 2)])])), 'cmp', 'function-at-zero'))
     for _ in range(n):
         s, c = g.r.uniform(-5, 5), g.r.uniform(-5, 5)
         if g.random() < 0.2: c = g.r.uniform(-1e-6, 1e-6)
@@ -192,6 +196,11 @@ def gen_C12(g, tier):
             cs.append(Case('o.c12.rcopy %d %d %s' % (k, n - k, hexes(ang)), 'orc', 'circular-copy-assignment-after-query'))
             cs.append(Case('o.c12.rcopy %d 0 %s' % (n, hexes(ang)), 'orc', 'circular-copy-assignment-after-query'))
             cs.append(Case('o.c12.rassign %d %d %s' % (n, k, hexes(ang)), 'orc', 'circular-assignment-forgets-history'))
+        # new contents that are the mirror image of the old (angles negated, variances kept): every even function of the
+        # angles (the weights among them) is unchanged bit for bit, the direction is not
+        mir = [(-x if i % 2 == 0 else x) for i, x in enumerate(ang)]
+        cs.append(Case('o.c12.rcopy %d %d %s' % (n, n, hexes(ang + mir)), 'orc', 'circular-copy-assignment-of-mirrored-contents'))
+        cs.append(Case('o.c12.rassign 2 1 %s' % hexes(ang[:2] + [-ang[0], ang[1]]), 'orc', 'circular-assignment-of-mirrored-estimate'))
     # an accumulator merged with itself up to 70 times (2^70 entries): counts far beyond any integer type
     for _ in range(6 if tier == 'quick' else 100):
         n = g.randint(1, 4); ang = []
